@@ -82,6 +82,14 @@ Scan == Is("scan") /\ (Ev.src = 0 \/ Has(Ev.src))
               /\ SpanSetOf(Ev.rks) = Spans(View(Ev.src).rks))
         /\ UNCHANGED <<cur, hs, cv>>
 
+(* a backward scan visits the same points in descending order and the same spans *)
+Rev(s) == [i \in 1..Len(s) |-> s[Len(s) + 1 - i]]
+RScan == Is("rscan") /\ (Ev.src = 0 \/ Has(Ev.src))
+         /\ ((Chk(Ev.cls) /\ Taint(Ev.src) = {}) =>
+               /\ Ev.pts = Rev(ScanPts(View(Ev.src)))
+               /\ SpanSetOf(Ev.rks) = Spans(View(Ev.src).rks))
+         /\ UNCHANGED <<cur, hs, cv>>
+
 (* C43: under injected I/O faults a read returns an error or the right result, never a wrong result *)
 FGet == Is("fget") /\ (Chk("fault") => (Ev.err \/ Ev.res = View(Ev.src).pts[Ev.k])) /\ UNCHANGED <<cur, hs, cv>>
 FScan == Is("fscan")
@@ -228,7 +236,7 @@ DirList == Is("dirlist")
 Note == Is("note") /\ UNCHANGED <<cur, hs, cv>>
 
 TraceNext == \/ Reset \/ Commit \/ Ingest \/ IngestExcise \/ Excise \/ BatchCommit \/ DurablePoint \/ SyncWait \/ Maint
-             \/ Snap \/ Efos \/ BatchNew \/ BatchOp \/ Close \/ Get \/ Scan \/ FGet \/ FScan
+             \/ Snap \/ Efos \/ BatchNew \/ BatchOp \/ Close \/ Get \/ Scan \/ RScan \/ FGet \/ FScan
              \/ NewIter \/ IterOp \/ IterLimOp \/ SetBounds \/ SetOpts \/ CloneIt
              \/ CrashProbe \/ Reopen \/ DurRead \/ Lsm \/ Pin \/ Unpin \/ Removed \/ DirList \/ CleanReopen \/ CloseDB \/ Checkpoint \/ ScanInt \/ Ratchet \/ Note
 TraceSpec == TraceInit /\ [][TraceNext]_vars
